@@ -61,7 +61,14 @@ def rx_3_4(ctx, rep):
            'str.splitlines is used but its pieces are not re-merged by the _NON_LINE_BREAKS test')
     # keepends=False pattern(s)
     found = 0
+    # the function itself and the module-level values it refers to (a precompiled / wrapped splitter)
+    scopes = [f.node]
     for n in ast.walk(f.node):
+        if isinstance(n, ast.Name) and isinstance(n.ctx, ast.Load):
+            for v in f.mod.globals.get(n.id, []) or []:
+                if v is not None and not isinstance(v, (ast.FunctionDef, ast.ClassDef)):
+                    scopes.append(v)
+    for n in [x for sc in scopes for x in ast.walk(sc)]:
         if isinstance(n, ast.Call) and norm(n.func) in ('re.split', 're.compile') and n.args:
             pat = n.args[0]
             if isinstance(pat, ast.Constant) and isinstance(pat.value, str):
